@@ -122,7 +122,6 @@ Proof.
   - (* UndeployEnd *)
     destruct (snap s); [|discriminate]. inversion H; subst; clear H.
     constructor; simpl; unfold complete; simpl; intros; try contradiction; auto.
-    destruct (Hd j H) as [A B]. auto.
   - (* PopMissing *)
     destruct (mem j (sched s)); [discriminate|]. inversion H; subst. constructor; auto.
 Qed.
